@@ -62,7 +62,8 @@ def run(ctx):
                         c["cheb_samples"] = a["degree"] + 21
                 cases.append(c)
         # 1/x over its whole (kappa, epsilon) table, Chebyshev basis (high-accuracy requests included)
-        for kappa, eps in ((1.5, 0.3), (2, 0.1), (3, 0.3), (3, 0.01), (4, 1e-3), (5, 0.1), (8, 0.05), (3, 1e-3), (5, 1e-3), (4, 1e-4), (8, 1e-2)):
+        for kappa, eps in ((1.5, 0.3), (2, 0.1), (3, 0.3), (3, 0.01), (4, 1e-3), (5, 0.1), (8, 0.05), (3, 1e-3), (5, 1e-3), (4, 1e-4), (8, 1e-2),
+                           (1.2, 0.3), (1.15, 0.2), (1.4, 0.6), (1.3, 0.3), (1.05, 0.1), (1.25, 0.05)):      # incl. b = int(kappa^2 log(kappa/eps)) = 1, 2, 3
             cases.append({"fn": "gen", "name": "invert", "args": G.enc_args({"kappa": kappa, "epsilon": eps}), "ensure_bounded": True,
                           "return_scale": False, "chebyshev_basis": True, "timeout": 300})
         # directed: tuples on which a local optimiser started at 0.1 can miss the largest lobe
